@@ -1,6 +1,6 @@
 (* C07 property theorems ONLY (each closed by an already proved lemma) + assumptions. *)
 From Coq Require Import List NArith Bool Arith Lia.
-From RV Require Import C06.Model C06.Index C07.Crash.
+From RV Require Import C06.Model C06.Index C06.Run C07.Crash C07.Prefix C07.Restart.
 Import ListNotations.
 Open Scope N_scope.
 
@@ -27,6 +27,56 @@ Theorem C07_first_snapshot_cut : forall c h fs0 j, wf_header c h -> wf_d c fs0 -
 Proof. exact first_cut_no_blob. Qed.
 Print Assumptions C07_first_snapshot_cut.
 
+(* crash_prefix_safe, full strength: for every archive A built by appends (chain layout of C06_index_of_appends),
+   every delta d and EVERY cut offset k of the write trace of the append (in-place patch of the previous trailer,
+   delta, END, new trailer), opening the crash image exposes exactly the snapshots of A (k < |trace|) or of A with
+   d appended (k >= |trace|), with the same offsets and times. *)
+Theorem C07_crash_prefix_safe : forall c, wf_cfg c -> forall h fs0 ds d k,
+  wf_header c h -> wf_d c fs0 -> 2 <= ver_of c fs0 0 -> Forall (small_d c) ds -> small_d c d ->
+  N.of_nat (length ds) + 1 < 2^32 ->
+  let A := archive c h fs0 ds in
+  let tr := append_trace c h fs0 ds d in
+  ((k < length (snd tr))%nat -> exists fl, open_archive c (crash_image A tr k) = OOk (mkI (blobs_of c h fs0 ds) fl)) /\
+  ((length (snd tr) <= k)%nat -> open_archive c (crash_image A tr k) = OOk (mkI (blobs_of c h fs0 (ds ++ [d])) false)).
+Proof. exact crash_prefix_safe. Qed.
+Print Assumptions C07_crash_prefix_safe.
+
+(* stale bytes behind the last trailer (left by an interrupted longer write) do not change what is exposed *)
+Theorem C07_open_with_stale_tail : forall c, wf_cfg c -> forall h fs0 ds g,
+  wf_header c h -> wf_d c fs0 -> 2 <= ver_of c fs0 0 -> Forall (small_d c) ds -> N.of_nat (length ds) < 2^32 ->
+  exists fl, open_archive c (archive c h fs0 ds ++ g) = OOk (mkI (blobs_of c h fs0 ds) fl).
+Proof. exact open_with_stale_tail. Qed.
+Print Assumptions C07_open_with_stale_tail.
+
+(* restart_equiv (write part): on the crash image of ANY cut, writing the append of a new delta d' at the end of
+   the last intact snapshot gives exactly (A with d' appended) followed by a stale tail: same bytes, same index. *)
+Theorem C07_restart_write : forall c, wf_cfg c -> forall h fs0 ds d d' k,
+  wf_header c h -> wf_d c fs0 -> 2 <= ver_of c fs0 0 -> Forall (small_d c) ds -> small_d c d' ->
+  N.of_nat (length ds) + 1 < 2^32 ->
+  let A := archive c h fs0 ds in
+  let img := crash_image A (append_trace c h fs0 ds d) k in
+  let F := patch img (lenN A - 12) (snd (append_trace c h fs0 ds d')) in
+  (exists stale, F = archive c h fs0 (ds ++ [d']) ++ stale) /\
+  exists fl, open_archive c F = OOk (mkI (blobs_of c h fs0 (ds ++ [d'])) fl).
+Proof. exact restart_write. Qed.
+Print Assumptions C07_restart_write.
+
+(* ... and the hypothesis that the corruption test of save_to_file fires (no_spoof) is necessary: a payload that
+   looks like END ++ trailer with a consistent back-link defeats it (cut 92); one byte earlier it fires (cut 91).
+   Replayed on the real library by tools/c07.py (open known finding restart-spoofed-tail). *)
+Theorem C07_restart_spoof_refuted :
+  let d' := binary_diff (fun _ => leqb) sp_fs0 (parse_stream sp_c sp_new) in
+  (92 < length (snd (append_trace sp_c sp_h sp_fs0 [sp_d1] sp_d)))%nat /\
+  tail_corrupt sp_c (sp_img 92) true = false /\
+  open_archive sp_c (save_append (fun _ => leqb) sp_c (sp_img 92) sp_new)
+    = OOk (mkI (blobs_of sp_c sp_h sp_fs0 [sp_d1]) true) /\
+  blobs_of sp_c sp_h sp_fs0 [sp_d1] <> blobs_of sp_c sp_h sp_fs0 ([sp_d1] ++ [d']) /\
+  tail_corrupt sp_c (sp_img 91) true = true /\
+  open_archive sp_c (save_append (fun _ => leqb) sp_c (sp_img 91) sp_new)
+    = OOk (mkI (blobs_of sp_c sp_h sp_fs0 ([sp_d1] ++ [d'])) false).
+Proof. exact restart_spoof_refuted. Qed.
+Print Assumptions C07_restart_spoof_refuted.
+
 (* Non-vacuity: a delta with a t field and a vanished field, cut inside the payload *)
 Example C07_hypotheses_inhabited :
   let c := mkCfg 9999 1329743186 2 3 in
@@ -38,4 +88,21 @@ Proof.
   cbv zeta. split; [constructor; cbn; lia|]. split.
   { repeat constructor; cbn; try lia; try discriminate; intros; try discriminate; try lia. }
   split; [vm_compute; lia|]. split; vm_compute; reflexivity.
+Qed.
+
+(* Non-vacuity of the hypotheses of C07_crash_prefix_safe / C07_restart_write: the archive of the spoof witness *)
+Example C07_crash_hypotheses_inhabited :
+  wf_cfg sp_c /\ wf_header sp_c sp_h /\ wf_d sp_c sp_fs0 /\ 2 <= ver_of sp_c sp_fs0 0 /\
+  Forall (small_d sp_c) [sp_d1] /\ small_d sp_c sp_d /\
+  length (snd (append_trace sp_c sp_h sp_fs0 [sp_d1] sp_d)) = 124%nat.
+Proof.
+  split; [constructor; cbn; lia|]. split.
+  { eexists _, _. split; [vm_compute; reflexivity|reflexivity]. }
+  assert (W : forall f, In f (sp_fs0 ++ sp_d1 ++ sp_d) -> wf_field sp_c f).
+  { intros f Hf. cbn in Hf. unfold wf_field.
+    repeat (destruct Hf as [<-|Hf]; [cbn; repeat split; try lia; try discriminate; intros; try discriminate; try lia|]); destruct Hf. }
+  split; [repeat constructor; apply W; cbn; tauto|].
+  split; [vm_compute; discriminate|].
+  split; [repeat constructor; try (apply W; cbn; tauto); vm_compute; reflexivity|].
+  split; [split; [repeat constructor; apply W; cbn; tauto|vm_compute; reflexivity]|vm_compute; reflexivity].
 Qed.
